@@ -57,6 +57,42 @@ CHECKS = {
         design_ref="DESIGN.md section 4, C13",
         note=TB_B + " Results of start()/shutdown() are compared with last_processed_offset as of the moment the Deferred fires.",
     ),
+    "C01": dict(
+        category="model_checking",
+        technique="dynamic symbolic execution of the real Producer with z3: symbolic attempt limit and ack offsets, symbolic event script (sends, replies with per-payload outcomes, metadata, timers, cancel, stop), exhaustive within bounds",
+        text="Bounded symbolic model checking of the real afkak.producer.Producer against a contract client. The attempt limit is a z3 integer "
+             "(limit comparisons are solver decisions), acknowledged offsets are z3 integers, and the script of sends, per-payload broker "
+             "outcomes (ack, error codes, transport failure, whole-call Kafka/non-Kafka failure, empty result), metadata answers, timers, "
+             "cancellations and stop is a sequence of symbolic finite-domain choices explored exhaustively up to the bound, for acks 0/1/-1, "
+             "batched or not, gzip or none, both message formats. Monitors: a send succeeds only with an error-free ProduceResponse for the "
+             "partition whose leader acknowledged a request carrying exactly its (key,value) sequence; acks 0 succeeds with None only after "
+             "hand-over; every other outcome is a Failure; every Deferred fires exactly once.",
+        design_ref="DESIGN.md section 4, C01",
+        note=TB_B,
+    ),
+    "C09": dict(
+        category="model_checking",
+        technique="dynamic symbolic execution of the real Producer with z3: monitor over the sequence of produce requests under symbolic per-attempt outcome matrices and a symbolic attempt limit",
+        text="Bounded symbolic model checking of the real Producer's dispatch/retry logic: the monitor observes every send_produce_request call "
+             "and checks per-partition submission order within and across batches, one payload per partition and one appearance per message per "
+             "attempt, at most one request in flight, acknowledged payloads never re-sent, exactly the failed payloads retried, geometric retry "
+             "delays (recomputed with the same float operations) and attempts <= the symbolic limit, over all per-attempt outcome patterns within "
+             "the fault budget.",
+        design_ref="DESIGN.md section 4, C09",
+        note=TB_B,
+    ),
+    "C19": dict(
+        category="model_checking",
+        technique="dynamic symbolic execution of the real Producer with z3: batch_every_n and batch_every_b as symbolic integers (threshold tests are solver decisions), symbolic script of sends/cancels/ticks/completions/stop",
+        text="Bounded symbolic model checking of the Producer's batching: both thresholds are z3 integers over a range, so _check_send_batch's "
+             "comparisons are decided by the solver for all threshold settings; sends of several sizes (incl. null messages), cancellations, "
+             "timer ticks, batch completions and stop are explored exhaustively up to the script bound. Monitors: waiting counters equal the "
+             "queue contents after every event, an idle producer never sits on a met threshold, no queued message waits beyond one period "
+             "while idle, a send cancelled before dispatch is never transmitted, cancel fails the caller at once, stop fails all outstanding "
+             "sends and transmits nothing further.",
+        design_ref="DESIGN.md section 4, C19",
+        note=TB_B + " Reading for stop(): a send whose partition lookup had already failed terminally before stop() reports that routing error rather than a cancellation.",
+    ),
 }
 
 NOT_YET = "check not built yet in this session; see DESIGN.md section 4 for the planned solver-based harness"
